@@ -116,7 +116,15 @@ def gen_probes(rnd, film, holes, n):
     pts = []
     xs = [-0.6, 0.6, 0.0, -0.3][:n]
     for x in xs:
-        pts.append([r3(x * hw + rnd.uniform(-0.03, 0.03)), r3(rnd.choice([-0.6, 0.6, 0.55]) * hh * (0.9 if film["kind"] == "box" else 0.6))])
+        px = x * hw + rnd.uniform(-0.03, 0.03)
+        py = rnd.choice([-0.6, 0.6, 0.55]) * hh * (0.9 if film["kind"] == "box" else 0.6)
+        for hole in holes:
+            # keep clear of holes (bounding circle + margin)
+            c = hole.get("c", [0.0, 0.0])
+            rad = max(hole.get("a", 0), hole.get("b", 0), hole.get("w", 0) / 2, hole.get("h", 0) / 2) * 1.3
+            if (px - c[0]) ** 2 + (py - c[1]) ** 2 < rad**2:
+                py = (0.8 if py >= c[1] else -0.8) * hh * (1.0 if film["kind"] == "box" else 0.55)
+        pts.append([r3(px), r3(py)])
     return pts
 
 
